@@ -14,7 +14,10 @@ One result token per op, blank-separated; the first panic ends the history.
   view: as raw, except par ↦ `r` (the representative is a member of the class and the same as the one reported for
         that class since its last real union; else `R!`), parall likewise, dump ↦ `depth-ok` (every vertex's depth is
         ≤ log2 of its root's size; else `DEPTH!`).
-  spec: the partition `Part` (quick-find), nothing forest-like; `any` if some argument is out of range.
+  spec: the partition `Part` (quick-find), nothing forest-like.  An op with an argument out of range ends the history;
+        its view and spec token are both `ood` (the property says nothing), its raw token is the panic.
+  `randmix seed cnt`: cnt random un/par/size/check on random elements (lookups interleaved with unions at any n);
+        raw = hash of every returned value, view = hash of the un/size/check answers + the representative rule.
 -/
 open Rlib Rlib.Dsu
 
@@ -157,14 +160,66 @@ def runPairs (s : S) (sp : PSpec) (pairs : List (Nat × Nat)) : MacroAcc :=
       match err with
       | some e => ⟨s, sp, mt, mh, st, sh, some e⟩
       | none =>
-        let n := s.p.size
-        match un n s uv.1 uv.2 with
+        match un (fuelFor s) s uv.1 uv.2 with
         | .error e => ⟨⟨#[], #[]⟩, sp, mt, mh, st, sh, some e⟩
         | .ok (s', b) =>
           let (sp', c) := sp.union uv.1 uv.2
           ⟨s', sp', mt + (if b then 1 else 0), fnvStep mh (if b then 1 else 0),
             st + (if c then 1 else 0), fnvStep sh (if c then 1 else 0), none⟩)
     ⟨s, sp, 0, fnvInit, 0, fnvInit, none⟩
+
+/-- accumulator of `randmix`: model, spec, generator state, hash of everything the model returned, hash of the
+    class-level answers (un/size/check) of model and of spec, representative rule so far -/
+structure MixAcc where
+  s : S
+  sp : PSpec
+  g : UInt64
+  hAll : UInt64
+  hM : UInt64
+  hS : UInt64
+  ok : Bool
+  err : Option Panic
+
+/-- `cnt` random operations (4/8 un, 1/8 par, 1/8 size, 2/8 check) on random elements -/
+def runMix (s : S) (sp : PSpec) (seed cnt : Nat) : MixAcc :=
+  let n := s.p.size
+  if n = 0 then ⟨s, sp, 0, fnvInit, fnvInit, fnvInit, true, none⟩ else
+  (List.range cnt).foldl (fun (acc : MixAcc) _ =>
+    match acc with
+    | ⟨s, sp, g, hAll, hM, hS, ok, err⟩ =>
+      match err with
+      | some e => ⟨s, sp, g, hAll, hM, hS, ok, some e⟩
+      | none =>
+        let (g, r) := smNext g
+        let (g, a) := smNext g
+        let (g, b) := smNext g
+        let k := r.toNat % 8
+        let a := a.toNat % n
+        let b := b.toNat % n
+        if k < 4 then
+          match un (fuelFor s) s a b with
+          | .error e => ⟨⟨#[], #[]⟩, sp, g, hAll, hM, hS, ok, some e⟩
+          | .ok (s', x) =>
+            let (sp', c) := sp.union a b
+            let xm := if x then 1 else 0
+            ⟨s', sp', g, fnvStep hAll xm, fnvStep hM xm, fnvStep hS (if c then 1 else 0), ok, none⟩
+        else if k = 4 then
+          match par (fuelFor s) s a with
+          | .error e => ⟨⟨#[], #[]⟩, sp, g, hAll, hM, hS, ok, some e⟩
+          | .ok (s', x) =>
+            let (sp', o) := sp.rep a x
+            ⟨s', sp', g, fnvStep hAll x, hM, hS, ok && o, none⟩
+        else if k = 5 then
+          match size (fuelFor s) s a with
+          | .error e => ⟨⟨#[], #[]⟩, sp, g, hAll, hM, hS, ok, some e⟩
+          | .ok (s', x) => ⟨s', sp, g, fnvStep hAll x, fnvStep hM x, fnvStep hS (sp.part.size a), ok, none⟩
+        else
+          match check (fuelFor s) s a b with
+          | .error e => ⟨⟨#[], #[]⟩, sp, g, hAll, hM, hS, ok, some e⟩
+          | .ok (s', x) =>
+            let xm := if x then 1 else 0
+            ⟨s', sp, g, fnvStep hAll xm, fnvStep hM xm, fnvStep hS (if sp.part.conn a b then 1 else 0), ok, none⟩)
+    ⟨s, sp, seed.toUInt64, fnvInit, fnvInit, fnvInit, true, none⟩
 
 inductive Out where
   | tok (st : DState) (t : Tok)
@@ -174,13 +229,17 @@ inductive Out where
 /-- the model failed although every argument is in range: the theorems exclude this, so make it visible -/
 def errTok (e : Panic) : Tok := ⟨e.toString, e.toString, "no-panic"⟩
 
+/-- an argument is out of range: the property says nothing about this observation (view and spec are both `ood`),
+    the raw column still compares the model's panic with the implementation's; the history ends here -/
+def oodTok (raw : String) : Tok := ⟨raw, "ood", "ood"⟩
+
 def withCur (st : DState) (s : S) (sp : PSpec) : DState := ⟨⟨s, st.sys.saved⟩, sp, st.spS⟩
 
 /-- apply a model step; `k` builds the tokens from the result and the updated spec -/
 def prim (st : DState) (op : Op) (inRange : Bool) (k : Sys → Res → Out) : Out :=
   match step st.sys op with
-  | .error e => if inRange then .stop (errTok e) false else .stop (tok1 e.toString) true
-  | .ok (sys, r) => if inRange then k sys r else .stop (tok1 "no-panic-out-of-range") true
+  | .error e => if inRange then .stop (errTok e) false else .stop (oodTok e.toString) false
+  | .ok (sys, r) => if inRange then k sys r else .stop (oodTok "no-panic") false
 
 def doOp (st : DState) (toks : List String) : Out :=
   let n := st.sys.cur.p.size
@@ -241,7 +300,7 @@ def doOp (st : DState) (toks : List String) : Out :=
           match err with
           | some e => (s, sp, h, ok, some e)
           | none =>
-            match par n s v with
+            match par (fuelFor s) s v with
             | .error e => (⟨#[], #[]⟩, sp, h, ok, some e)
             | .ok (s', k) =>
               let (sp', ok') := sp.rep v k
@@ -259,7 +318,7 @@ def doOp (st : DState) (toks : List String) : Out :=
           match err with
           | some e => (s, h, hs, some e)
           | none =>
-            match size n s v with
+            match size (fuelFor s) s v with
             | .error e => (⟨#[], #[]⟩, h, hs, some e)
             | .ok (s', k) => (s', fnvStep h k, fnvStep hs (spC.part.size v), none)) (cur, fnvInit, fnvInit, none)
       match r with
@@ -275,24 +334,42 @@ def doOp (st : DState) (toks : List String) : Out :=
           match err with
           | some e => (s, h, hs, some e)
           | none =>
-            match check n s v (v + 1) with
+            match check (fuelFor s) s v (v + 1) with
             | .error e => (⟨#[], #[]⟩, h, hs, some e)
             | .ok (s', b) => (s', fnvStep h (if b then 1 else 0), fnvStep hs (if spC.part.conn v (v + 1) then 1 else 0), none))
         (cur, fnvInit, fnvInit, none)
       match r with
       | (s, h, hs, none) => .tok ⟨⟨s, saved⟩, spC, spS⟩ ⟨s!"#{hex16 h}", s!"#{hex16 h}", s!"#{hex16 hs}"⟩
       | (_, _, _, some e) => .stop (errTok e) false
+  | ["randmix", seed, cnt] =>
+    match parseNat? seed, parseNat? cnt with
+    | some seed, some cnt =>
+      match st with
+      | ⟨⟨cur, saved⟩, spC, spS⟩ =>
+        match runMix cur spC seed cnt with
+        | ⟨s, sp, _, hAll, hM, hS, ok, none⟩ =>
+          .tok ⟨⟨s, saved⟩, sp, spS⟩ ⟨s!"#{hex16 hAll}", s!"#{hex16 hM}/{if ok then "r" else "R!"}", s!"#{hex16 hS}/r"⟩
+        | ⟨_, _, _, _, _, _, _, some e⟩ => .stop (errTok e) false
+    | _, _ => .bad
   | _ =>
     match macroPairs n toks with
     | none => .bad
     | some pairs =>
+      -- pairs up to and including the first one with an argument out of range
+      let inR (uv : Nat × Nat) : Bool := uv.1 < n && uv.2 < n
+      let good := pairs.takeWhile inR
+      let firstBad := (pairs.dropWhile inR).head?
       match st with
       | ⟨⟨cur, saved⟩, spC, spS⟩ =>
-        match runPairs cur spC pairs with
+        match runPairs cur spC good with
         | ⟨s, sp, mt, mh, st', sh, none⟩ =>
-          .tok ⟨⟨s, saved⟩, sp, spS⟩ ⟨s!"{mt}:{hex16 mh}", s!"{mt}:{hex16 mh}", s!"{st'}:{hex16 sh}"⟩
-        | ⟨_, _, _, _, _, _, some e⟩ =>
-          if pairs.all (fun uv => uv.1 < n && uv.2 < n) then .stop (errTok e) false else .stop (tok1 e.toString) true
+          match firstBad with
+          | none => .tok ⟨⟨s, saved⟩, sp, spS⟩ ⟨s!"{mt}:{hex16 mh}", s!"{mt}:{hex16 mh}", s!"{st'}:{hex16 sh}"⟩
+          | some uv =>
+            match un (fuelFor s) s uv.1 uv.2 with
+            | .error e => .stop (oodTok e.toString) false
+            | .ok _ => .stop (oodTok "no-panic") false
+        | ⟨_, _, _, _, _, _, some e⟩ => .stop (errTok e) false
 
 def runOps : DState → List String → List Tok → Bool → Option (List Tok × Bool)
   | _, [], acc, ood => some (acc.reverse, ood)
@@ -316,7 +393,7 @@ def handle (line : String) : String :=
         let j (f : Tok → String) := " ".intercalate (ts.map f)
         let raw := if ts.isEmpty then "-" else j (·.raw)
         let view := if ts.isEmpty then "-" else j (·.view)
-        let spec := if ood then "any" else if ts.isEmpty then "-" else j (·.spec)
+        let spec := if ood then "any" else if ts.isEmpty then "-" else j (·.spec)   -- `ood` is never set any more: `any` is per observation
         answer3 raw view spec
 
 def main : IO Unit := driverMain handle
